@@ -1004,6 +1004,10 @@ func (g *gen) genClause(f *hframe, depth int, bad bool) clause {
 		toks := []string{name, tx.Int(n)}
 		for i := range subs {
 			c := g.genClause(f, depth-1, bad && r.P(1, 3))
+			if name == "AND" && i == 0 && n >= 2 && r.P(1, 3) {
+				// a first conjunct that keeps every row: the next one starts from the frame's own (shared) row index
+				c = clause{qframe.Null(), []string{"NULL"}}
+			}
 			subs[i] = c.c
 			toks = append(toks, c.toks...)
 		}
